@@ -1,5 +1,6 @@
 import Infretis.Props.C10Core
 import Infretis.Props.C10Ext
+import Infretis.Props.C10Audit
 /-!
 # C10 — wire-fencing weights are exact, symmetric and drive segment choice
 
